@@ -1,6 +1,7 @@
 import MocModel.Drv.Core
 import MocModel.Spec.Handlers
 import MocModel.Drv.Cache
+import MocModel.Spec.Sqlite
 open Lean Moc.Wire
 
 namespace Moc.Drv.HandlersD
@@ -8,13 +9,15 @@ namespace Moc.Drv.HandlersD
 structure St where
   c : Cache := { cap := 0 }
   shown : List Event := []   -- what a match-everything REQ would list (tracked from the model)
+  db : Db := {}              -- SQLite handler: the model's tables (every EVENT is a batch of one)
+  hist : List Event := []    -- SQLite handler: the EVENTs sent so far
 
 def listing (c : Cache) : List Event := match c.find id [{}] with | .ok l => l | .panic => []
 
 def step (st : St) (j : Json) : Except String (St × Drv.Out) := do
   let op ← strF j "op"
   match op with
-  | "reset" => pure ({ c := { cap := ← intF j "cap" } }, { nontrivial := false })
+  | "reset" => pure ({ c := { cap := ← intF j "cap" }, db := {}, hist := [] }, { nontrivial := false })
   | "msg" =>
     let m ← clientMsg (← fld j "msg")
     let impl ← asList serverMsg (← fld j "out")
@@ -83,8 +86,24 @@ def step (st : St) (j : Json) : Except String (St × Drv.Out) := do
     match HandlerSpec.replyShapeOk m impl accept with
     | some err => o := o.mon "replies" "sqlite.shape" s!"{(clientMsgJ m).compress} -> {(jList serverMsgJ impl).compress}: {err}"
     | none => pure ()
+    let mut st := st
     match m with
     | .count _ _ => if impl != [ServerMsg.count (match m with | .count s _ => s | _ => "") 0 none] then o := o.diff "sqlite COUNT reply differs from COUNT 0"
+    | .event e => st := { st with db := st.db.insertBatch [e], hist := st.hist ++ [e] }
+    | .req _ fs =>
+      -- content: judged only when the harness saw its barrier event stored (all earlier EVENTs processed)
+      if (fldD j "synced") == Json.bool true then
+        o := o.tag "sqlite.req-synced"
+        let got := impl.filterMap fun r => match r with | .event _ e => some e | _ => none
+        match st.db.candidates fs with
+        | none => o := o.tag "sqlite.req-unbuildable"
+        | some cands =>
+          let bad := SqliteSpec.judgeAnswer cands got
+          if !bad.isEmpty then
+            o := o.diff s!"sqlite handler REQ {(jList filterJ fs).compress}: answer {got.map (·.id)} is not an answer of the model's tables: {bad.map (·.2)}"
+          for (cls, msg) in SqliteSpec.judgeAnswer (SqliteSpec.owed st.hist fs got) got do
+            o := o.mon "replies" s!"sqlite.req-{cls}" s!"REQ {(jList filterJ fs).compress}: {msg}"
+      else o := o.tag "sqlite.req-unsynced"
     | _ => pure ()
     pure (st, o)
   | _ => throw s!"unknown op {op}"
